@@ -144,4 +144,11 @@ example :
       = some (.done 0 1 none, .done 1 1 (some ⟨1, 1, 42⟩)) := by
   decide
 
+
+/-- T2 structure fact shared with C19: the ids of concurrent calls are distinct because the generator is one atomic add-and-fetch
+(two calls with one id would overwrite each other's waiter: a lost or mis-routed response) -/
+theorem id_generator_atomic :
+    Gen.stmts_GetRequestIDGen = ["var id uint32", "return func() uint32 { return atomic.AddUint32(&id, 1) }"] := by
+  decide
+
 end OAP.C05
